@@ -200,7 +200,8 @@ def main(argv=None):
                                     time_s=ob["time_s"], smt2_bytes=ob.get("smt2_bytes")))
 
     # --- failed obligations: replay on the real code
-    rdir = HERE / "replays" / pid
+    # replays of runs against a scratch copy of the sources (seeded changes, mutants) are kept apart from those of /repo itself
+    rdir = (HERE / "replays" / pid) if str(SRC_ROOT) == "/repo" else (HERE / ".scratch" / "replays-scratch" / pid)
     for r, ob in failed:
         c = contract.REGISTRY.get(r["contract"])
         sig = f"vc:{ob['ident']}[{r['case']}]"
